@@ -90,6 +90,21 @@ def run(rep, tier, seed, replay):
                 else:
                     rep.violation("oracle", "the displayed postfix of the partition does not rebuild into the same program (%s)" % tag, {"expr": e, "postfix": unhex(pf["post"])}, impl=pl[:300])
 
+    # ---- HISTORY: a value that has answered its queries and matched a path, and is THEN re-owned, combined or partitioned,
+    # gives the same new value as one that was never asked (harness `XH`)
+    if replay is None or replay["input"].get("what") == "history":
+        subj = [exprs[k] for k in built]
+        for e, line in zip(subj, h.ask(["XH " + hexs(e) for e in subj])):
+            rep.evaluations += 1
+            bad = [x.split("=", 1)[0] for x in line.split(" ") if "=DIFF<" in x]
+            if line.startswith("panic"):
+                continue
+            if bad:
+                rep.violation("oracle", "after answering its queries the value converts differently (%s): program, queries or both differ from the same conversion of a fresh value" % ",".join(bad),
+                              {"expr": e, "what": "history"}, impl=line[:600])
+            else:
+                rep.stats["history: queried-then-converted = converted (partition, into_owned, any, owned partition, postfix re-owned)"] += 1
+
     # ---- owned matched text on LONG candidate paths (offsets beyond 16 and near 32 bits of bytes are the same offsets)
     if replay is None:
         longs = [("**/{*.{go,rs}}", "component/" * 7000 + "lib.rs"), ("*/*.{log,txt}", "d" * 40000 + "/" + "f" * 40000 + ".log"),
